@@ -82,7 +82,11 @@ Definition lift_alu_gen (o : aluop) (sz : Z) (lhsr rhsr : res expr) (store : exp
       c1 <- mk_bin Cmpltu lhs rhs ;; c2 <- mk_bin Cmpltu s1 zc ;; c <- mk_bin Or c1 c2 ;;
       st <- store r ;;
       Ok ([OAssign t1 e1; OAssign t0 e0; zf; sf; of; assign_flag X86Lift.n_CF c] ++ st))
-  | _ => None
+  | ATest => Some (
+      lhs <- lhsr ;; rhs <- rhsr ;;
+      e <- mk_bin And lhs rhs ;;
+      zf <- set_zf e ;; sf <- set_sf e ;;
+      Ok [zf; sf; assign_flag X86Lift.n_CF (expr_const 0 1); assign_flag X86Lift.n_OF (expr_const 0 1)])
   end.
 
 Definition lift_alu_rhs (m : mode) (o : aluop) (sz : Z) (dst : operand) (rhsr : res expr) : option (res (list operation)) :=
@@ -101,7 +105,15 @@ Definition lift_un_gen (o : unop) (dr : res expr) (store : expr -> res (list ope
   match o with
   | UInc => Some (incdec Add false)
   | UDec => Some (incdec Sub true)
-  | _ => None
+  | UNeg => Some (
+      d <- dr ;;
+      let sz := e_bits d in let t0 := temp_k 0 sz in let r := EScalar t0 in
+      c <- mk_bin Cmpneq d (expr_const 0 sz) ;;
+      e <- mk_bin Sub (expr_const 0 sz) d ;;
+      zf <- set_zf r ;; sf <- set_sf r ;; of <- set_of r (expr_const 0 sz) d true ;;
+      st <- store r ;;
+      Ok ([assign_flag X86Lift.n_CF c; OAssign t0 e; zf; sf; of] ++ st))
+  | UNot => Some (d <- dr ;; e <- mk_bin Xor d (expr_const (2 ^ e_bits d - 1) (e_bits d)) ;; store e)
   end.
 
 Definition lift_un (m : mode) (o : unop) (sz : Z) (dst : operand) : option (res (list operation)) :=
@@ -254,6 +266,90 @@ Definition lift_movx_load (m : mode) (sg : bool) (dsz ssz : Z) (dst : Z) (src : 
   | None => None
   end.
 
+(* ---- round 6: Mode::operand_load / operand_store for any mirrored operand kind in one function each ---- *)
+Definition opnd_mirrored (m : mode) (o : operand) : bool :=
+  match o with OMem _ _ _ _ => match addr_expr m o with Some _ => true | None => false end | _ => true end.
+(* the operations operand_load appends to the block and the expression it yields *)
+Definition opl (m : mode) (sz : Z) (o : operand) : res (list operation * expr) :=
+  match o with
+  | OMem _ _ _ _ => match addr_expr m o with
+                    | Some ra => a <- ra ;; Ok ([OLoad (temp_main sz) a], EScalar (temp_main sz))
+                    | None => Err ECustom end
+  | _ => e <- opv m sz o ;; Ok ([], e)
+  end.
+Definition ost (m : mode) (sz : Z) (o : operand) (v : expr) : res (list operation) :=
+  match o with
+  | OMem _ _ _ _ => match addr_expr m o with Some ra => a <- ra ;; Ok [OStore a v] | None => Err ECustom end
+  | _ => ops_store m sz o v
+  end.
+
+(* xchg a, b:  t0 := a; a := b; b := t0 *)
+Definition lift_xchg (m : mode) (sz : Z) (a b : operand) : res (list operation) :=
+  la <- opl m sz a ;; lb <- opl m sz b ;;
+  let t0 := temp_k 0 sz in
+  sa <- ost m sz a (snd lb) ;; sb <- ost m sz b (EScalar t0) ;;
+  Ok (fst la ++ fst lb ++ [OAssign t0 (snd la)] ++ sa ++ sb).
+
+(* xadd dst, src:  t1 := dst; t0 := dst + src; flags; register destination: src := t1, dst := t0 (this order);
+   memory destination: store first, then src := t1 *)
+Definition lift_xadd (m : mode) (sz : Z) (dst src : operand) : res (list operation) :=
+  la <- opl m sz dst ;; lb <- opl m sz src ;;
+  let lhs := snd la in let rhs := snd lb in
+  let t0 := temp_k 0 sz in let t1 := temp_k 1 sz in let r := EScalar t0 in
+  e <- mk_bin Add lhs rhs ;;
+  zf <- set_zf r ;; sf <- set_sf r ;; of <- set_of r lhs rhs false ;;
+  c <- mk_bin Cmpltu r lhs ;;
+  st <- (if match dst with OMem _ _ _ _ => false | _ => true end
+         then s1 <- ost m sz src (EScalar t1) ;; s0 <- ost m sz dst r ;; Ok (s1 ++ s0)
+         else s0 <- ost m sz dst r ;; s1 <- ost m sz src (EScalar t1) ;; Ok (s0 ++ s1)) ;;
+  Ok (fst la ++ fst lb ++ [OAssign t1 lhs; OAssign t0 e; zf; sf; of; assign_flag X86Lift.n_CF c] ++ st).
+
+(* imul (two- and three-operand forms): t0 (2*sz bits) := sext(a) * sext(b); dst := trun(t0); OF := t0 != sext(trun(t0)); CF := OF *)
+Definition lift_imul (m : mode) (sz : Z) (dst : Z) (a b : operand) : res (list operation) :=
+  la <- opl m sz a ;; lb <- opl m sz b ;;
+  let w := 2 * sz in let t0 := temp_k 0 w in let r := EScalar t0 in
+  x <- mk_ext Sext w (snd la) ;; y <- mk_ext Sext w (snd lb) ;;
+  p <- mk_bin Mul x y ;;
+  tr <- mk_ext Trun sz r ;;
+  st <- ost m sz (OReg dst) tr ;;
+  sx <- mk_ext Sext w tr ;;
+  c <- mk_bin Cmpneq r sx ;;
+  Ok (fst la ++ fst lb ++ [OAssign t0 p] ++ st ++ [assign_flag X86Lift.n_OF c; assign_flag X86Lift.n_CF (EScalar (flag_scalar X86Lift.n_OF))]).
+
+(* ---- shl / shr / sar: count masked to 5 (6) bits and brought to the operand width; every flag keeps its value when
+        the masked count is zero (ite on the count) ---- *)
+Definition masked_count (bits : Z) (count : expr) : res expr :=
+  c <- mk_bin And count (expr_const (if bits =? 64 then 63 else 31) (e_bits count)) ;;
+  if e_bits c <? bits then mk_ext Zext bits c else if bits <? e_bits c then mk_ext Trun bits c else Ok c.
+Definition msb_expr (e : expr) : res expr :=
+  s <- mk_bin Shr e (expr_const (e_bits e - 1) (e_bits e)) ;; mk_ext Trun 1 s.
+Definition flag_unless_zero (n : N) (count value : expr) : res operation :=
+  z <- mk_bin Cmpeq count (expr_const 0 (e_bits count)) ;;
+  i <- mk_ite z (EScalar (flag_scalar n)) value ;; Ok (assign_flag n i).
+Definition shift_binop (o : shop) : binop := match o with SShl => Shl | SShr => Shr | _ => AShr end.
+Definition lift_shift (m : mode) (o : shop) (sz csz : Z) (dst cnt : operand) : option (res (list operation)) :=
+  match o with
+  | SShl | SShr | SSar => Some (
+      la <- opl m sz dst ;; lb <- opl m csz cnt ;;
+      let lhs := snd la in
+      c <- masked_count (e_bits lhs) (snd lb) ;;
+      e <- mk_bin (shift_binop o) lhs c ;;
+      c1 <- mk_bin Sub c (expr_const 1 (e_bits c)) ;;
+      pre <- mk_bin (shift_binop o) lhs c1 ;;
+      cf <- (match o with SShl => msb_expr pre | _ => mk_ext Trun 1 pre end) ;;
+      of <- (match o with
+             | SShl => me <- msb_expr e ;; mk_bin Xor cf me
+             | SShr => msb_expr lhs
+             | _ => Ok (expr_const 0 1) end) ;;
+      zfv <- mk_bin Cmpeq e (expr_const 0 (e_bits e)) ;;
+      sfv <- msb_expr e ;;
+      a1 <- flag_unless_zero X86Lift.n_CF c cf ;; a2 <- flag_unless_zero X86Lift.n_OF c of ;;
+      a3 <- flag_unless_zero X86Lift.n_ZF c zfv ;; a4 <- flag_unless_zero X86Lift.n_SF c sfv ;;
+      st <- ost m sz dst e ;;
+      Ok (fst la ++ fst lb ++ [a1; a2; a3; a4] ++ st))
+  | _ => None
+  end.
+
 Definition regimm (o : operand) : bool := match o with OReg _ | ORegH _ | OImm _ => true | _ => false end.
 Definition isreg (o : operand) : bool := match o with OReg _ | ORegH _ => true | _ => false end.
 
@@ -277,6 +373,12 @@ Definition mirror_instr (m : mode) (addr : Z) (i : instr) : option (res cfg) :=
   | ILea sz dst src => option_map wrap (lift_lea m sz dst src)
   | IPush sz src => option_map wrap (lift_push m sz src)
   | IPop sz dst => option_map wrap (lift_pop m sz dst)
+  | IXchg sz a b => if isreg b && (isreg a || (is_mem a && opnd_mirrored m a)) then Some (wrap (lift_xchg m sz a b)) else None
+  | IXadd sz a b => if isreg b && (isreg a || (is_mem a && opnd_mirrored m a)) then Some (wrap (lift_xadd m sz a b)) else None
+  | IImul2 sz dst src => if isreg src || (is_mem src && opnd_mirrored m src) then Some (wrap (lift_imul m sz dst (OReg dst) src)) else None
+  | IImul3 sz dst src imm => if isreg src || (is_mem src && opnd_mirrored m src) then Some (wrap (lift_imul m sz dst src (OImm imm))) else None
+  | IShift o sz dst cnt => if (isreg dst || (is_mem dst && opnd_mirrored m dst)) && regimm cnt then option_map wrap (lift_shift m o sz 8 dst cnt) else None
+  | IShift1 o sz dst => if isreg dst || (is_mem dst && opnd_mirrored m dst) then option_map wrap (lift_shift m o sz sz dst (OImm 1)) else None
   | IMovx sg dsz ssz dst src => if isreg src then Some (wrap (lift_movx m sg dsz ssz dst src))
                                 else if is_mem src then option_map wrap (lift_movx_load m sg dsz ssz dst src) else None
   | _ => None
